@@ -561,11 +561,19 @@ class Array(Generic[T], Collection):
         if is_primitive_integer(self.retrieve_inner_type()) and is_primitive_integer(
             other.retrieve_inner_type()
         ):
-            contained_type = (
+            left_type = (
                 self.contained_type
                 if inspect.isclass(self.contained_type)
                 else self.contained_type.__class__
             )
+            right_type = (
+                other.contained_type
+                if inspect.isclass(other.contained_type)
+                else other.contained_type.__class__
+            )
+            # The result is as secret as the most secret of the two element types.
+            mode = Mode(max(left_type.mode.value, right_type.mode.value))
+            contained_type = new_scalar_type(mode, left_type.base_type)
             return contained_type(
                 child=InnerProduct(
                     left=self, right=other, source_ref=SourceRef.back_frame()
